@@ -2260,7 +2260,36 @@ Theorem more_update_spec : forall um moreu,
                 (In p qs -> In p (ps ++ extra))).
 Proof.
   intros um moreu. split; [destruct moreu; reflexivity|]. split; [reflexivity|].
+  intros ps extra p -> ->. simpl. exists (ps ++ extra). split; auto. split; auto.
+  intros H. exists p. split; auto. apply is_prefix_refl.
+Qed.
+
+(* the same statement about the pinned option (fieldmaskpb.Union) *)
+Theorem more_update_v0_spec : forall um moreu,
+  effective_update_v0 None moreu = None /\
+  effective_update_v0 um None = um /\
+  (forall ps extra p, um = Some ps -> moreu = Some extra ->
+     exists qs, effective_update_v0 um moreu = Some qs /\
+                (In p (ps ++ extra) -> exists q, In q qs /\ is_prefix q p = true) /\
+                (In p qs -> In p (ps ++ extra))).
+Proof.
+  intros um moreu. split; [destruct moreu; reflexivity|]. split; [reflexivity|].
   intros ps extra p -> ->. simpl. exists (fm_union ps extra). split; auto. unfold fm_union. split.
   - apply normalize_covers.
   - apply normalize_subset.
+Qed.
+
+(* after 3a4e7e7 every path either option was given reaches Validate: one path of the update mask or
+   of the extra update paths that is not a valid path of the type, or lies outside the writable
+   fields, and the write is rejected with InvalidArgument - whatever the other paths are *)
+Theorem more_update_all_validated : forall sch ty ps extra wm rm p,
+  In p (ps ++ extra) ->
+  (~ good_path sch ty p \/ (exists ws, wm = Some ws /\ forall w, In w ws -> is_prefix w p = false)) ->
+  validate_update sch ty (effective_update (Some ps) (Some extra)) wm rm = code_invalid_argument.
+Proof.
+  intros sch ty ps extra wm rm p Hin Hbad. simpl.
+  apply (proj2 (validate_update_codes sch ty (Some (ps ++ extra)) wm rm)).
+  intros [Hg Hw]. destruct Hbad as [Hb|[ws [-> Hb]]].
+  - apply Hb. apply Hg. exact Hin.
+  - destruct (Hw p Hin) as [w [Hi Hp]]. rewrite (Hb w Hi) in Hp. discriminate.
 Qed.
